@@ -52,9 +52,38 @@ def mirror_rule(ctx, rule="R05d"):
                 o = cfg.op_origin(b, t["a"][0])
                 if o and o[0] == 1 and o[1]:
                     got[o[1][0][1:]] = (i, t)
+        # the second copy updated from a result combinator: `self.memory.resize(n).and_then(|_| self.file.resize(n))`
+        via_closure = {}
+        for i, t in cfg.calls(b):
+            if (cfg.callee_decl(t) or cfg.callee(t) or "").split("::")[-1] != "and_then":
+                continue
+            for a in t["a"][1:]:
+                pl = cfg.op_place(a)
+                for d in (cfg.defs(b).get(cfg.origin(b, pl)[0], []) if pl else []):
+                    if not (d[0] == "assign" and d[2]["k"] == "agg" and d[2].get("what") == "closure"):
+                        continue
+                    cb = fa.body(d[2]["def"])
+                    for j, tt in (cfg.calls(cb) if cb else []):
+                        if cfg.callee_decl(tt) != SD + "::" + m or not tt["a"]:
+                            continue
+                        o = cfg.op_origin(cb, tt["a"][0])          # (closure env).k -> captured operand k of the aggregate
+                        ks = [e for e in (o[1] if o else []) if isinstance(e, str) and e[1:].isdigit()]
+                        cap = d[2]["ops"][int(ks[0][1:])] if ks and int(ks[0][1:]) < len(d[2]["ops"]) else None
+                        oo = cfg.op_origin(b, cap) if cap else None
+                        if oo and oo[0] == 1 and oo[1]:
+                            passed = True
+                            for k, aa in enumerate(tt["a"][1:], start=2):
+                                ao = cfg.op_origin(cb, aa)
+                                aks = [e for e in (ao[1] if ao else []) if isinstance(e, str) and e[1:].isdigit()]
+                                acap = d[2]["ops"][int(aks[0][1:])] if aks and ao[0] == 1 and int(aks[0][1:]) < len(d[2]["ops"]) else None
+                                aoo = cfg.op_origin(b, acap) if acap else None
+                                if not (aoo and aoo[0] == k and not aoo[1]):
+                                    passed = False
+                            got.setdefault(oo[1][0][1:], (i, t))
+                            via_closure[oo[1][0][1:]] = passed
         if m in need:
             missing = need[m] - set(got)
-            okp = all(args_pass_through(b, t) for i, t in got.values())
+            okp = all(via_closure[f] if f in via_closure else args_pass_through(b, t) for f, (i, t) in got.items())
             # both calls must happen on every success path
             okb, errb, unk = cfg.ret_class_blocks(b)
             targets = (okb + unk) or cfg.return_blocks(b)
